@@ -70,4 +70,7 @@ theorem src_pca_maps_adjoint : Gen.pcaTransformUsesV = true ∧ Gen.pcaInverseDa
 theorem src_pca_component_maps :
     Gen.pcaInverseCompsBody.contains "V = self.V" = true ∧ Gen.pcaTransformCompsBody.contains "Tinv = self.V.conj().T" = true := by decide
 
+/-- source obligation: `n_pca_modes = "all"` resolves to the full rank bound `min(shape)` -/
+theorem src_pca_all_is_full_rank : Gen.pcaAllModesResolution.contains "min(X.shape)" = true ∧ Gen.pcaAllModesResolution.length = 2 := by decide
+
 end C10
